@@ -29,8 +29,11 @@ void * g_hp_ptr;
 
 #define HU_INPOOL(x) (__CPROVER_same_object((x), hu_obj) && (size_t)__CPROVER_POINTER_OFFSET(x) < HU_CAP)
 #define HU_ID(x)     ((size_t)__CPROVER_POINTER_OFFSET(x))
-#define HU_LT(x, y)  (hu_key[HU_ID(x)] < hu_key[HU_ID(y)])
-#define HU_POS(x)    (hu_pos[HU_ID(x)])
+/* (index clamped: specification text is evaluated for slots outside the heap too, where the guard makes it
+   irrelevant but CBMC's array-bounds check still fires) */
+#define HU_IDC(x)    (HU_ID(x) % HU_CAP)
+#define HU_LT(x, y)  (hu_key[HU_IDC(x)] < hu_key[HU_IDC(y)])
+#define HU_POS(x)    (hu_pos[HU_IDC(x)])
 
 #define HU_C_(k, e)   ((k) >= HU_CAP || (e))
 #define HU_ALL(P, ...) ( \
